@@ -312,7 +312,21 @@ class _Folder:
                 out.append(new)
                 continue
             if isinstance(st, ast.Return):
-                out.append(ast.copy_location(ast.Return(value=self.deep(st.value) if st.value is not None else None), st))
+                val = self.deep(st.value) if st.value is not None else None
+                # `return helper(consts)` where the helper, specialised with those constants, only raises: the raise itself
+                if isinstance(val, ast.Call) and isinstance(val.func, (ast.Name, ast.Attribute)) and self.depth < 4:
+                    sym = self.prog.resolve_expr_symbol(self.mod, val.func)
+                    if isinstance(sym, FuncInfo) and sym is not self.fn and sym.module.name.startswith('dznpy') and \
+                            sym.fq not in self.stack:
+                        bind = self.prog.bind_call(self.mod, val)
+                        cenv = {k: c for k, v in bind.items() for c in [self.const_node(self.fold(v))] if c is not None}
+                        if cenv and len(cenv) == len(bind):
+                            r = residual(self.prog, sym, cenv, self.depth + 1)
+                            r = [x for x in r if not isinstance(x, ast.Pass)]
+                            if len(r) == 1 and isinstance(r[0], ast.Raise):
+                                out.append(r[0])
+                                return out, True
+                out.append(ast.copy_location(ast.Return(value=val), st))
                 return out, True
             if isinstance(st, ast.Raise):
                 out.append(st)
